@@ -126,8 +126,10 @@ func cloneExpr(e ast.Expr, subst func(*ast.Ident) ast.Expr) (ast.Expr, bool) {
 	return nil, false
 }
 
-// inlineTrivialHelpers rewrites the module packages in place. Returns the number of calls inlined.
-func inlineTrivialHelpers(pkgs []*packages.Package, inModule func(*packages.Package) bool) int {
+// inlineTrivialHelpers rewrites the module packages in place. level 1: single-expression helpers;
+// level 2: also statement-level inlining (inline2.go). Returns the number of calls inlined and whether
+// every package could be re-checked (false: the syntax trees are unusable, the caller must reload).
+func inlineTrivialHelpers(pkgs []*packages.Package, inModule func(*packages.Package) bool, level int) (int, bool) {
 	total := 0
 	newTypes := map[string]*types.Package{}
 	var order []*packages.Package
@@ -137,17 +139,18 @@ func inlineTrivialHelpers(pkgs []*packages.Package, inModule func(*packages.Pack
 		}
 	})
 	for _, p := range order {
-		n, ok := inlinePackage(p, newTypes)
-		if ok {
-			total += n
+		n, ok := inlinePackage(p, newTypes, level)
+		if !ok {
+			return total, false
 		}
+		total += n
 	}
-	return total
+	return total, true
 }
 
-func inlinePackage(p *packages.Package, newTypes map[string]*types.Package) (int, bool) {
+func inlinePackage(p *packages.Package, newTypes map[string]*types.Package, level int) (int, bool) {
 	if p.TypesInfo == nil || len(p.Syntax) == 0 {
-		return 0, false
+		return 0, true
 	}
 	info := p.TypesInfo
 	// needs re-check if a dependency inside the module was re-checked (type identity), even without own inlining
@@ -202,9 +205,6 @@ func inlinePackage(p *packages.Package, newTypes map[string]*types.Package) (int
 				cands[obj] = c
 			}
 		}
-	}
-	if len(cands) == 0 && !depRechecked {
-		return 0, true
 	}
 	// rewrite call sites
 	nInl := 0
@@ -305,54 +305,90 @@ func inlinePackage(p *packages.Package, newTypes map[string]*types.Package) (int
 			})
 		}
 	}
-	if nInl == 0 && !depRechecked {
-		return 0, true
-	}
-	// re-type-check
-	ninfo := &types.Info{
-		Types: map[ast.Expr]types.TypeAndValue{}, Defs: map[*ast.Ident]types.Object{}, Uses: map[*ast.Ident]types.Object{},
-		Implicits: map[ast.Node]types.Object{}, Selections: map[*ast.SelectorExpr]*types.Selection{}, Scopes: map[ast.Node]*types.Scope{},
-		Instances: map[*ast.Ident]types.Instance{},
-	}
-	imp := importerFunc(func(path string) (*types.Package, error) {
-		if np, ok := newTypes[path]; ok {
-			return np, nil
+	recheck := func() (*types.Package, *types.Info, error) {
+		ninfo := &types.Info{
+			Types: map[ast.Expr]types.TypeAndValue{}, Defs: map[*ast.Ident]types.Object{}, Uses: map[*ast.Ident]types.Object{},
+			Implicits: map[ast.Node]types.Object{}, Selections: map[*ast.SelectorExpr]*types.Selection{}, Scopes: map[ast.Node]*types.Scope{},
+			Instances: map[*ast.Ident]types.Instance{},
 		}
-		if ip, ok := p.Imports[path]; ok && ip.Types != nil {
-			return ip.Types, nil
-		}
-		return nil, fmt.Errorf("import %q not loaded", path)
-	})
-	var terr error
-	conf := types.Config{Importer: imp, Sizes: p.TypesSizes, Error: func(err error) {
-		if terr == nil {
-			terr = err
-		}
-	}}
-	np, _ := conf.Check(p.PkgPath, p.Fset, files, ninfo)
-	if terr != nil || np == nil {
-		// cannot happen for a hygienic rewrite; the caller reloads without inlining
-		if os.Getenv("LOWCHECK_TIMING") != "" {
-			fmt.Fprintln(os.Stderr, "inline: re-check failed for", p.PkgPath, terr)
-		}
-		return 0, false
-	}
-	// hygiene: package-level identifiers copied from helper bodies still mean the same object
-	for _, c := range checks {
-		o := ninfo.Uses[c.id]
-		if c.pkg == nil {
-			pn, ok := o.(*types.PkgName)
-			if !ok || pn.Imported().Path() != c.name {
-				return 0, false
+		imp := importerFunc(func(path string) (*types.Package, error) {
+			if np, ok := newTypes[path]; ok {
+				return np, nil
 			}
-			continue
+			if ip, ok := p.Imports[path]; ok && ip.Types != nil {
+				return ip.Types, nil
+			}
+			return nil, fmt.Errorf("import %q not loaded", path)
+		})
+		var terr error
+		conf := types.Config{Importer: imp, Sizes: p.TypesSizes, Error: func(err error) {
+			if terr == nil {
+				terr = err
+			}
+		}}
+		np, _ := conf.Check(p.PkgPath, p.Fset, files, ninfo)
+		if terr == nil && np == nil {
+			terr = fmt.Errorf("no package")
 		}
-		if o == nil || o.Name() != c.name || o.Pkg() == nil || o.Pkg().Path() != c.pkg.Path() || o.Parent() != o.Pkg().Scope() {
+		return np, ninfo, terr
+	}
+	hygienic := func(ninfo *types.Info, name string, pkg *types.Package, id *ast.Ident) bool {
+		o := ninfo.Uses[id]
+		if pkg == nil {
+			pn, ok := o.(*types.PkgName)
+			return ok && pn.Imported().Path() == name
+		}
+		return o != nil && o.Name() == name && o.Pkg() != nil && o.Pkg().Path() == pkg.Path() && o.Parent() == o.Pkg().Scope()
+	}
+	dirty := false
+	if nInl > 0 || depRechecked {
+		np, ninfo, terr := recheck()
+		if terr != nil {
+			if os.Getenv("LOWCHECK_TIMING") != "" {
+				fmt.Fprintln(os.Stderr, "inline: re-check failed for", p.PkgPath, terr)
+			}
 			return 0, false
 		}
+		// hygiene: package-level identifiers copied from helper bodies still mean the same object
+		for _, c := range checks {
+			if !hygienic(ninfo, c.name, c.pkg, c.id) {
+				return 0, false
+			}
+		}
+		p.Types, p.TypesInfo = np, ninfo
+		info = ninfo
+		dirty = true
 	}
-	p.Types, p.TypesInfo = np, ninfo
-	newTypes[p.PkgPath] = np
+	if level >= 2 {
+		for round := 0; round < 3; round++ {
+			n, hc := inlineStmtRound(p.Types.Name(), files, info)
+			if n == 0 {
+				break
+			}
+			np, ninfo, terr := recheck()
+			if terr != nil {
+				if os.Getenv("LOWCHECK_TIMING") != "" {
+					fmt.Fprintln(os.Stderr, "inline(stmt): re-check failed for", p.PkgPath, terr)
+				}
+				return 0, false
+			}
+			for _, c := range hc {
+				if !hygienic(ninfo, c.name, c.pkg, c.id) {
+					if os.Getenv("LOWCHECK_TIMING") != "" {
+						fmt.Fprintln(os.Stderr, "inline(stmt): identifier", c.name, "resolves differently after inlining in", p.PkgPath)
+					}
+					return 0, false
+				}
+			}
+			p.Types, p.TypesInfo = np, ninfo
+			info = ninfo
+			nInl += n
+			dirty = true
+		}
+	}
+	if dirty {
+		newTypes[p.PkgPath] = p.Types
+	}
 	return nInl, true
 }
 
